@@ -1320,3 +1320,51 @@ def closure_call_values(p, e, limit=40):
             pass
         out.append(rewrite(x, lambda n: actual[n[1] - 2] if n[0] == "arg" and isinstance(n[1], int) and 2 <= n[1] < 2 + len(actual) else None))
     return out
+
+
+def collect_loops(body):
+    """`let mut v = Vec::new(); for x in ITER { v.push(x) }` is `ITER.collect()`: returns
+    {vec local: ITER expression} for every fresh vector whose only growth is one push of the loop's
+    own element, guarded by nothing but that loop's `Some`."""
+    from . import paths
+    from .mir import callee_name as _cn
+    eb = ExprBuilder(body)
+    sites = {}
+    for bb, t in body.calls():
+        c = t["callee"]
+        if c["k"] != "fndef":
+            continue
+        nm = _cn(c)
+        if re.search(r"Vec::<T, A>::(push|extend_from_slice|append|insert|resize|truncate|clear|pop)$|Extend<.*>>::extend$", nm) and t["args"] and t["args"][0].get("k") in ("move", "copy"):
+            rl = t["args"][0]["place"]["local"]
+            base = [d[2]["rv"]["place"]["local"] for d in body.defs().get(rl, []) if d[1] != "term" and d[2]["rv"]["k"] == "ref" and not d[2]["rv"]["place"]["proj"]]
+            if base:
+                sites.setdefault(base[0], []).append((bb, t, nm))
+    out = {}
+    for v, ss in sites.items():
+        if len(ss) != 1 or not ss[0][2].endswith("::push"):
+            continue
+        ds = [d for d in body.defs().get(v, []) if not body.is_cleanup(d[0])]
+        if not (len(ds) == 1 and ds[0][1] == "term" and (_cn(ds[0][2]["callee"]).endswith("Vec::<T>::new") or _cn(ds[0][2]["callee"]).endswith("with_capacity"))):
+            continue
+        bb, t, nm = ss[0]
+        val = eb.at(bb).op(t["args"][1])
+        gs = paths.guards(body, bb, eb)
+        if len(gs) == 1 and gs[0][0] == "some" and gs[0][1][0] == "call" and gs[0][1][1].endswith("::next") and len(gs[0][1][2]) == 1 \
+                and val == ("field", ("variant", gs[0][1], "Some"), "0"):
+            it = gs[0][1][2][0]
+            while it[0] == "call" and it[1].endswith("IntoIterator>::into_iter") and len(it[2]) == 1:
+                it = it[2][0]
+            out[v] = it
+    return out
+
+
+def builder_with_collect_loops(body):
+    """an ExprBuilder that renders every collect-loop vector of `body` as ITER.collect()"""
+    cl = collect_loops(body)
+
+    def hook(pl, bb):
+        if pl["local"] in cl and not pl["proj"]:
+            return ("call", "std::iter::Iterator::collect", (cl[pl["local"]],))
+        return None
+    return ExprBuilder(body, place_hook=hook) if cl else ExprBuilder(body)
